@@ -34,7 +34,47 @@ _VTS_NOTE = ("Trusted: rxvc; z3; A-time (datetime/timedelta arithmetic is exact 
              "advance_to/sleep/start re-entrantly are outside. Counter-models are replayed natively against a reference model of "
              "virtual time under a watchdog (bounded).")
 
+_HO_NOTE = (" Call-out discipline for K1: wherever the real code subscribes to a source, the coupling invariant must already hold "
+            "(the source may emit synchronously from inside subscribe) - the k-th such call-out of the real code is paired with the "
+            "k-th `out.subscribe(...)` of the spec; the order of 'subscribe inner' / 'unsubscribe previous' / 'unsubscribe source i' "
+            "events is compared with the spec's. Inner handler families are verified for an arbitrary member: created by one outer "
+            "on_next from an arbitrary state, then run from an arbitrary later state in which that member is live.")
+
 CHECKS_K1 = {
+    "C11": {
+        "text": "merge_all_ and merge_(max_concurrent=n) are proved to refine their spec machines for all outer timelines and an arbitrary "
+                "number of inner sources: inner elements are forwarded at once and unchanged (per-inner order and timing), an inner or "
+                "outer error terminates, completion only when the outer completed and no inner is live; with max_concurrent at most n "
+                "inners are subscribed, the others wait in a FIFO queue and the next one starts when a live one completes (same "
+                "source, same moment as the spec); operator state is consistent at every point where an inner is subscribed, so inners "
+                "that complete synchronously inside subscribe are covered.",
+        "note": _K1_NOTE + _HO_NOTE + " Covered here: merge_all_, merge_ with max_concurrent. Not yet under contract (not covered by this "
+                "claim): n-ary reactivex.merge, flat_map, flat_map_indexed, concat_map (thin compositions over these two). No native "
+                "replay runner for higher-order timelines yet: counter-models are reported with no-failing-input-found.",
+        "technique": "K1 handler refinement with handler families and call-out discipline, SMT",
+    },
+    "C12": {
+        "text": "switch_latest_ is proved to refine its spec machine: an inner element/error/completion is forwarded iff its inner is the "
+                "most recently received one (arrival number equals the counter), the previous inner is unsubscribed before the new one "
+                "is subscribed (event order compared with the spec, via the SerialDisposable contract of C26), completion iff the outer "
+                "completed and the latest inner completed; state is consistent where the new inner is subscribed.",
+        "note": _K1_NOTE + _HO_NOTE + " Covered: switch_latest_. Not yet under contract: switch_map, switch_map_indexed, flat_map_latest "
+                "(compositions of map and switch_latest).",
+        "technique": "K1 handler refinement with handler families (arbitrary inner id), event-order comparison, SMT",
+    },
+    "C13": {
+        "text": "amb_ (binary, exact): the first source to notify is mirrored and the other one is unsubscribed in that very step (event "
+                "compared with the spec), later events of the loser are dropped. zip_, combine_latest_, with_latest_from_, fork_join_: "
+                "every handler of every source refines the spec machine for ARITY 2 AND 3 (the per-source loops unroll; histories and "
+                "values are unbounded): zip pairs k-th elements and completes when a completed source has an empty queue; "
+                "combine_latest emits the tuple of latest values once all have one (and completes early only when all OTHER sources "
+                "are done); with_latest_from emits on primary elements once every other source has a value; fork_join emits the tuple "
+                "of last values when all completed or completes at once on an empty completion.",
+        "note": _K1_NOTE + " BOUND (stated, not proved beyond it): arity <= 3 for the n-ary combinators (the property asks for 1..4); "
+                "arity-generic invariants would need quantified array invariants. A-sentinel: user values do not claim equality with "
+                "the library-private NotSet sentinel of with_latest_from. reactivex.amb (n-ary fold of amb_) is not separately contracted.",
+        "technique": "K1 handler refinement per source index at arity 2 and 3, SMT",
+    },
     "C28": {
         "text": "Function contracts with loop invariants on the real VirtualTimeScheduler (inherited unchanged by TestScheduler and "
                 "HistoricalScheduler), ScheduledItem and PriorityQueue. The run loops of start and advance_to are cut at their "
